@@ -1,23 +1,23 @@
 SPECIFICATION SchedSpec
 CONSTANTS Messages <- MCMessages
-          AsCoded = FALSE
-          Gated = FALSE
+          AsCoded = TRUE
+          Gated = TRUE
           Mode = "http"
           MaxMsgs = 1
           HasTimeout = TRUE
-          BatchLimit = 2
-          SizeLimit = 0
+          BatchLimit = 0
+          SizeLimit = 100
           MaxNotes = 0
           SzRet = 10
           SzBig = 60
           SzErr = 40
           SzInv = 43
-          CallMethods = {"ret", "blk", "sub"}
-          NotifMethods = {"blk"}
-          InvIds = {0, 1}
-          WithResp = TRUE
-          MaxBatch = 3
+          CallMethods = {"ret", "blk", "cblk"}
+          NotifMethods = {"blk", "cblk"}
+          InvIds = {}
+          WithResp = FALSE
+          MaxBatch = 2
           Ids = {1, 2}
-INVARIANTS StateOut Invs
+INVARIANTS StateOut
 ACTION_CONSTRAINT Edge
 CHECK_DEADLOCK FALSE
